@@ -26,6 +26,7 @@ type BroadcastMessage struct {
 	Content     []byte   `json:"Content"`
 	ContentHash [16]byte `json:"ContentHash"`
 	ConnId      string   `json:"ConnId"`
+	Database    int      `json:"Database"` // Logical database of the forwarded command or key.
 }
 
 // Invalidates Implements Broadcast interface
